@@ -460,7 +460,30 @@ def judge_vi_check(a, impl):
     return None
 
 
-JUDGES = {"wedge.detected": judge_wedge, "vi.check": judge_vi_check, "vi.handle": judge_vi_handle, "trk.http_announce": judge_trk, "trk.udp": judge_trk, "trk.http_scrape": judge_trk}
+def judge_cfg_validate(a, impl):
+    """C20 on the implementation alone: every governed value positive (string options non-empty), values that were
+    valid are preserved (a shard count that cannot be doubled counts as invalid), validating twice changes nothing."""
+    r = args_of("x " + impl)
+    pkg = a.get("pkg")
+    for k, v in r.items():
+        if k == "idem":
+            if v != "1":
+                return f"{pkg}: validating twice changed the configuration again"
+            continue
+        if k.endswith("Empty"):
+            if v != "0":
+                return f"{pkg}: {k[:-5]} is still empty after validation"
+            continue
+        if int(v) <= 0:
+            return f"{pkg}: {k}={v} after validation (not positive)"
+        if k in a and int(a[k]) > 0 and int(v) != int(a[k]):
+            if k == "ShardCount" and int(a[k]) > (2**63 - 1) // 2:
+                continue
+            return f"{pkg}: {k} was valid ({a[k]}) and was replaced by {v}"
+    return None
+
+
+JUDGES = {"cfg.validate": judge_cfg_validate, "wedge.detected": judge_wedge, "vi.check": judge_vi_check, "vi.handle": judge_vi_handle, "trk.http_announce": judge_trk, "trk.udp": judge_trk, "trk.http_scrape": judge_trk}
 
 
 def matches(finding, failing):
@@ -480,6 +503,7 @@ RACETESTS = {
     "C15": [("middleware/jwt", "TestRefreshRace")],
     "C04": [("storage/memory", "TestVerifStoreRace"), ("frontend/udp", "TestVerifUDPRace"), ("frontend/http", "TestVerifHTTPWriteRace")],
     "C08": [("frontend/http", "TestVerifHTTPWriteRace")],
+    "C16": [("cmd/chihaya", "TestVerifRunStopWaits")],
 }
 
 
